@@ -28,6 +28,7 @@ Crc32Tab == [n \in 0..MaxLen |-> Usb3Crc32Bytes(Payload(n))]
 McCrc16(dw) == IF dw[7] <= MaxLen /\ dw = Hdr(dw[7]) THEN Crc16Tab[dw[7]] ELSE Usb3Crc16(dw)
 McCrc32(pl) == IF Len(pl) <= MaxLen /\ pl = Payload(Len(pl)) THEN Crc32Tab[Len(pl)] ELSE Usb3Crc32Bytes(pl)
 ASSUME Crc5TableOk
+ASSUME Crc32StreamOk
 
 NoRec == [iw |-> NoWord, good |-> FALSE, bad |-> FALSE, sv |-> 0, sd |-> <<0, 0, 0, 0>>]
 Init == p = RxInit /\ in = NoRec /\ cur = <<>> /\ sentlog = <<>> /\ reports = <<>> /\ gaps = 0
@@ -35,14 +36,14 @@ Init == p = RxInit /\ in = NoRec /\ cur = <<>> /\ sentlog = <<>> /\ reports = <<
 \* outputs a conforming receiver may show: payload bytes passed through in the cycle of their word,
 \* the owed report now or later
 Cycle(w) ==
-    LET p1 == RxConsume(p, w)      \* (only its owe / optbad fields are used here)
-        pay == w.v /\ p.ph = "payload" /\ Len(p.got) < p.len
+    \E p0 \in {RxConsume(p, w)} : \E p1 \in {RxResolve(p0)} :
+    LET pay == w.v /\ p.ph = "payload" /\ Len(p.got) < p.len
         m   == IF pay THEN LenMask(Min(4, p.len - Len(p.got))) ELSE 0
     IN \E rep \in (IF p1.owe # <<>> THEN Bool ELSE {FALSE}) \cup (IF p1.optbad THEN {TRUE} ELSE {}) :
          LET v == IF p1.owe # <<>> THEN p1.owe[1].v ELSE "bad"
              r == [iw |-> w, good |-> rep /\ v = "good", bad |-> rep /\ v = "bad", sv |-> m, sd |-> w.d]
-             j == Judge(p, r)
-         IN /\ j.f = "ok"
+         IN \E j \in {JudgeE(p, p1, r)} :
+            /\ j.f = "ok"
             /\ p' = j.n
             /\ in' = r
             /\ reports' = IF rep /\ p1.owe # <<>> THEN Append(reports, v) ELSE reports
